@@ -467,7 +467,12 @@ pub fn run(ctx: &Ctx, st: &mut Stats) {
             let off = ctx.seed % stride;
             let singles = na * ns * nifs;
             let dec2 = |i: u64| -> Option<WordCase> {
-                if i < singles { decode(i) } else { decode(singles + (i - singles) * stride + off) }
+                if i < singles {
+                    decode(i)
+                } else {
+                    let j = singles + (i - singles) * stride + off;
+                    if j < total { decode(j) } else { None }
+                }
             };
             let n = singles + (total - singles).div_ceil(stride);
             WORD.run_exhaustive(ctx, st, n, &dec2);
